@@ -306,6 +306,10 @@ ShiftClause(m, ev) ==
   ELSE IF DurExact(iv) /\ DurExact(sh) /\ Len(ev.pts2) # Len(ser) THEN "shifted-series-length"
   ELSE IF DurExact(iv) /\ DurExact(sh) /\ \E k \in 1..Len(ser) :
             ~Near3(Inst(m, ev.pts2[k]), Plus3(Inst(m, ser[k]), sh.len), IF sh.frac \/ ser[k].frac THEN 2 ELSE 0) THEN "point-not-moved-by-d"
+  \* r + d is the recurrence written with the anchor(s) moved by d: equal, equal hash, same points (any interval)
+  ELSE IF ~sh.frac /\ ~ev.eqmoved THEN "r+d#recurrence-with-moved-anchor"
+  ELSE IF ~sh.frac /\ ~ev.hmoved THEN "r+d-hash#recurrence-with-moved-anchor"
+  ELSE IF Len(ev.pts2) # Len(ev.pts3) \/ \E k \in 1..Len(ev.pts2) : ~TPMatch(m, ev.pts3[k], ev.pts2[k]) THEN "r+d-iterates-differently-from-moved-anchor"
   ELSE IF DurExact(sh) /\ ~sh.frac /\ ~ev.eqback THEN "(r+d)-d==r"
   ELSE "ok"
 
